@@ -425,7 +425,8 @@ func gen(t *rapid.T) Case {
 			k := rapid.SampledFrom([]string{"setr", "setr", "setw", "setw", "setrw", "clearr", "clearw", "clearrw", "smallwrite", "bigwrite", "peertraffic", "close"}).Draw(t, "op")
 			op := Op{AtMs: at, K: k}
 			if k == "setr" || k == "setw" || k == "setrw" {
-				op.DMs = rapid.SampledFrom([]int{30, 50, 70, 110, 150, 250}).Draw(t, "d")
+				// (0 and -40: a deadline that has passed already when it is set closes the connection at once)
+				op.DMs = rapid.SampledFrom([]int{30, 50, 70, 110, 150, 250, 30, 50, 70, 110, 150, 250, 0, -40}).Draw(t, "d")
 			}
 			if k == "close" && rapid.IntRange(0, 2).Draw(t, "reallyclose") != 0 {
 				op.K = "setr"
